@@ -290,7 +290,7 @@ void TsanScan(vh::Ctx &ctx) {
 
 static void writeResult(vh::Ctx &ctx) {
     using namespace vh;
-    for (auto &kv : g_benign) ctx.note("tsan non-canary report (not judged, DESIGN 6.2) x" + std::to_string(kv.second) + " " + kv.first);
+    for (auto &kv : g_benign) ctx.note("tsan non-canary report (not judged, DESIGN 6.2) " + kv.first);
     ctx.counters["tsan_reports_total"] += 0;
     ctx.counters["tsan_reports_benign"] += 0;
     ctx.counters["tsan_reports_canary"] += 0;
@@ -343,8 +343,9 @@ static void writeResult(vh::Ctx &ctx) {
 // linked with -Wl,--wrap=xassert: every assert() of the Squid objects in this binary lands here
 extern "C" void __wrap_xassert(const char *msg, const char *file, int line) {
     std::string f = file ? file : "";
-    const size_t p = f.rfind("/src/");
+    size_t p = f.rfind("/src/");
     if (p != std::string::npos) f = f.substr(p + 5);
+    else if ((p = f.rfind("/ipc/")) != std::string::npos) f = f.substr(p + 1); // IPC_OVERRIDE_DIR copy: same key as the original
     std::string m = msg ? msg : "";
     vt::Die("squid-assertion:" + f + ":" + m.substr(0, 80),
             "assertion failed inside Squid code while worker threads were operating on the shared structure: " + f + ":" + std::to_string(line) + ": \"" + m + "\"");
